@@ -8,12 +8,13 @@
    refused and retried unless the node's block at the batch's upper height is the handler's synced block of
    that height ([node_on_synced], switch f_import_tipcheck); cursor pull-back in [xrollback]);
    histories: Ledger/Remove.v [xrun]; specification: Ledger/Spec.v. *)
-From Coq Require Import List ZArith NArith Bool.
+From Coq Require Import List ZArith NArith Bool Permutation.
 Import ListNotations.
 Open Scope Z_scope.
 Require Import MW.Ledger.Model MW.Ledger.Spec MW.Ledger.Run MW.Ledger.WF MW.Ledger.Import MW.Ledger.Remove.
 Require Import MW.Ledger.Proofs MW.Ledger.ImportProofs.
 Require Import MW.Ledger.Proofs3 MW.Ledger.Proofs4 MW.Ledger.Proofs5 MW.Ledger.ImportProofs2.
+Require Import MW.Ledger.RemoveProofs MW.Ledger.ImportProofs3.
 
 (* ------------------------------------------------------------------ T1: import = live *)
 
@@ -35,8 +36,8 @@ Require Import MW.Ledger.Proofs3 MW.Ledger.Proofs4 MW.Ledger.Proofs5 MW.Ledger.I
    below, which let the chain move: blocks connected and disconnected on the node (also blocks it had
    left before), announcements processed (extensions, reorganisations with the cursor pull-back,
    roll-backs to an old block) between batches, batches that find the node on a chain the handler has
-   not been told about yet.  Other wallets
-   in the same database remain covered by the correspondence check (harness/cmd/c07) only. *)
+   not been told about yet.  Other wallets in the same database (with their own history, and transactions
+   SHARED with the restored wallet): C07_import_equals_live_multi / C07_import_frame_* at the end of this file. *)
 Theorem C07_import_equals_live_partial : forall fx p B c w own st0 j,
   wf_chain c -> 0 < B -> importing p c w own 0 st0 ->
   let st := batches fx p B c st0 w j in
@@ -222,7 +223,8 @@ Proof. vm_compute. split; reflexivity. Qed.
      connect again a block it disconnected earlier while the handler still has it as synced (it leaves a
      branch and comes back before the handler is told).  For the code as found that assumption ("no bounce")
      was needed and the statement was false without it: C07_import_bounce_refuted below.
-   Restriction kept from the partial theorem: the database holds no other wallet's keys.
+   Restriction kept from the partial theorem: the database holds no other wallet's keys — lifted by the
+   *_multi theorems at the end of this file (Ledger/ImportProofs3.v).
 
    [sinv] is the invariant (a): the handler is not crashed, the node's chain is well formed, and for the
    chain c the handler follows ([xinv p g U w keys c st] — the node's chain does not occur in it): the
@@ -484,3 +486,218 @@ Proof.
   split; [apply xwf_b_sound; vm_compute; reflexivity|].
   split; vm_compute; repeat split; try reflexivity. discriminate.
 Qed.
+
+(* ================================================================== T1 with OTHER wallets in the database *)
+
+(* The theorems above speak of a database in which the restored wallet w is the only wallet.  Here the database
+   already holds any number of OTHER ready wallets — keystore table [keys0] — that have followed the chain live
+   ([minv p g U w keys0 c0 st0] with w absent: C07_multi_start gives it from a direct description: the store is
+   the ledger [L p (lookupN keys0) c0] of their keys over the handler's chain c0, with its block records), and
+   transactions SHARED between w and one of them (B paid A: the transaction record and the block record exist
+   already when B's rescan reaches the block; the rescan must add B's debit and credits to them).
+   w is restored ([import_start], script hashes sh :: shs, none of them in keys0); then ANY history h of the
+   events of the theorems above (the node connects / disconnects / re-connects blocks, the handler processes
+   announcements — extensions, reorganisations with the cursor pull-back, roll-backs —, rescan batches of any
+   size that find the node wherever it is) — same environment assumption [xwf].
+
+   [minv p g U w keysA c st] (Ledger/ImportProofs3.v) is the invariant, for the chain c the handler follows:
+   store synced to c, import task alive, every credit and spent mark covered by a block record, every block
+   record names a block of c, every wallet other than w that has keys is READY, and with top = the cursor
+   (w importing) or the height of c (w ready):
+     the credits of w      = exactly those of the first top+1 blocks of c for w's addresses, in chain order,
+     the credits of others = exactly those of ALL of c for the other keys, in chain order
+   (two projections of the ONE credit list; spent marks included).
+
+   [equals_live_all p st n]: the database equals the live run of ALL wallets (all keys of the keystore table)
+   over the chain n: [ledger_of_chain p true (key_owner st) n = Ok live] (C01's follower, every wallet ready
+   from genesis), same synced chain, the credit list is a PERMUTATION of live's, every wallet's credits are
+   live's IN THE SAME ORDER with the same spent marks, and every wallet's report is the chain specification. *)
+
+(* (a) import = live for the whole database, the chain moving; until ready w cannot be selected; never dropped *)
+Theorem C07_import_equals_live_multi : forall p g U, (forall b1 b2, In b1 U -> In b2 U -> b_id b1 = b_id b2 -> b1 = b2) ->
+  forall w keys0 B cap, 0 < B -> forall pass sh shs c0 n0 all0 st0 st1,
+  ninv g U n0 -> minv p g U w keys0 c0 st0 -> status_of st0 w = None -> (forall s, ownW w keys0 s = None) ->
+  (forall s, In s (sh :: shs) -> lookupN keys0 s = None) ->
+  import_start st0 w pass (sh :: shs) = Some st1 ->
+  forall h, xwf p g U w B cap {| xs_node := n0; xs_st := st1; xs_all := all0; xs_crashed := false |} h ->
+  let s := fold_left (xstep repaired p B cap) h {| xs_node := n0; xs_st := st1; xs_all := all0; xs_crashed := false |} in
+  sinv_m p g U w (keys0 ++ keys_of w (sh :: shs)) s /\
+  (in_step g s -> status_of (xs_st s) w = Some WReady -> equals_live_all p (xs_st s) (xs_node s)) /\
+  (status_of (xs_st s) w <> Some WReady -> use_wallet (xs_st s) w = UUnready) /\
+  x_dead (xs_st s) = [] /\ xs_crashed s = false.
+Proof. exact import_equals_live_multi. Qed.
+Print Assumptions C07_import_equals_live_multi.
+
+(* (b) FRAME, absolute: at EVERY point of every such history (in step or not, w importing or ready) every other
+   wallet's credits — spent marks included — and report are exactly those of the ledger of the OTHER wallets'
+   keys alone over the chain c the handler follows: the rescan has not touched them *)
+Theorem C07_import_frame_multi : forall p g U, (forall b1 b2, In b1 U -> In b2 U -> b_id b1 = b_id b2 -> b1 = b2) ->
+  forall w keys0 B cap, 0 < B -> forall pass sh shs c0 n0 all0 st0 st1,
+  ninv g U n0 -> minv p g U w keys0 c0 st0 -> status_of st0 w = None -> (forall s, ownW w keys0 s = None) ->
+  import_start st0 w pass (sh :: shs) = Some st1 ->
+  forall h, xwf p g U w B cap {| xs_node := n0; xs_st := st1; xs_all := all0; xs_crashed := false |} h ->
+  let s := fold_left (xstep repaired p B cap) h {| xs_node := n0; xs_st := st1; xs_all := all0; xs_crashed := false |} in
+  exists c, wf_chain c /\ synced (x_w (xs_st s)) = synced_of c /\
+    forall v, v <> w ->
+      proj v (credits (x_w (xs_st s))) = proj v (credits (L p (lookupN keys0) c)) /\
+      xreport (xs_st s) v = spec_report p (lookupN keys0) c v.
+Proof. exact import_frame_multi. Qed.
+Print Assumptions C07_import_frame_multi.
+
+(* (b) FRAME, relative: the same events applied to the database in which w was never restored (there a batch
+   of w is a no-op): same synced chain; every other wallet has the same credits, spent marks and report *)
+Theorem C07_import_frame_vs_no_import : forall p g U, (forall b1 b2, In b1 U -> In b2 U -> b_id b1 = b_id b2 -> b1 = b2) ->
+  forall w keys0 B cap, 0 < B -> forall pass sh shs c0 n0 all0 st0 st1,
+  ninv g U n0 -> minv p g U w keys0 c0 st0 -> status_of st0 w = None -> (forall s, ownW w keys0 s = None) ->
+  import_start st0 w pass (sh :: shs) = Some st1 ->
+  forall all0' h, xwf p g U w B cap {| xs_node := n0; xs_st := st1; xs_all := all0; xs_crashed := false |} h ->
+  let s := fold_left (xstep repaired p B cap) h {| xs_node := n0; xs_st := st1; xs_all := all0; xs_crashed := false |} in
+  let s2 := fold_left (xstep repaired p B cap) h {| xs_node := n0; xs_st := st0; xs_all := all0'; xs_crashed := false |} in
+  xs_node s = xs_node s2 /\ synced (x_w (xs_st s)) = synced (x_w (xs_st s2)) /\
+  forall v, v <> w ->
+    proj v (credits (x_w (xs_st s))) = proj v (credits (x_w (xs_st s2))) /\
+    xreport (xs_st s) v = xreport (xs_st s2) v.
+Proof. exact import_frame_vs_no_import. Qed.
+Print Assumptions C07_import_frame_vs_no_import.
+
+(* (c) liveness: in step, chain static, m batches: ready as soon as cursor + m * B exceeds the height, and then
+   the database is the live run of all wallets *)
+Theorem C07_import_live_multi : forall p g U, (forall b1 b2, In b1 U -> In b2 U -> b_id b1 = b_id b2 -> b1 = b2) ->
+  forall w keys0 B cap, 0 < B -> forall pass sh shs c0 n0 all0 st0 st1,
+  ninv g U n0 -> minv p g U w keys0 c0 st0 -> status_of st0 w = None -> (forall s, ownW w keys0 s = None) ->
+  (forall s, In s (sh :: shs) -> lookupN keys0 s = None) ->
+  import_start st0 w pass (sh :: shs) = Some st1 ->
+  forall h m, xwf p g U w B cap {| xs_node := n0; xs_st := st1; xs_all := all0; xs_crashed := false |} h ->
+  let s := fold_left (xstep repaired p B cap) h {| xs_node := n0; xs_st := st1; xs_all := all0; xs_crashed := false |} in
+  in_step g s ->
+  (forall k, status_of (xs_st s) w = Some (WImporting k) -> chain_height (xs_node s) < k + Z.of_nat m * B) ->
+  let s' := fold_left (xstep repaired p B cap) (h ++ repeat (XBatch w) m) {| xs_node := n0; xs_st := st1; xs_all := all0; xs_crashed := false |} in
+  xs_node s' = xs_node s /\ in_step g s' /\ status_of (xs_st s') w = Some WReady /\
+  equals_live_all p (xs_st s') (xs_node s').
+Proof. exact import_live_multi. Qed.
+Print Assumptions C07_import_live_multi.
+
+(* the starting state, described directly *)
+Theorem C07_multi_start : forall p g U w keys0 c st0,
+  wf_chain c -> from_g g c -> incl c U ->
+  x_w st0 = L p (lookupN keys0) c -> x_keys st0 = keys0 -> x_dead st0 = [] ->
+  covered (x_brecs st0) (credits (x_w st0)) ->
+  (forall sh v, lookupN keys0 sh = Some v -> v <> w /\ status_of st0 v = Some WReady) ->
+  status_of st0 w = None ->
+  brs_ok c (x_brecs st0) -> brs_le (chain_height c) (x_brecs st0) ->
+  minv p g U w keys0 c st0 /\ (forall sh, ownW w keys0 sh = None).
+Proof. exact minv_live_start. Qed.
+Print Assumptions C07_multi_start.
+
+(* the steps of the invariant *)
+Theorem C07_batch_keeps_invariant_multi : forall p g U, (forall b1 b2, In b1 U -> In b2 U -> b_id b1 = b_id b2 -> b1 = b2) ->
+  forall w keysA B c n st, ninv g U n -> 0 < B -> minv p g U w keysA c st ->
+  minv p g U w keysA c (fst (import_batch repaired p B n st w)).
+Proof. exact mbatch_inv. Qed.
+Print Assumptions C07_batch_keeps_invariant_multi.
+
+Theorem C07_announcement_keeps_invariant_multi : forall p g U, (forall b1 b2, In b1 U -> In b2 U -> b_id b1 = b_id b2 -> b1 = b2) ->
+  forall w keysA c n st b st', ninv g U n -> minv p g U w keysA c st -> In b U -> b <> g ->
+  xprocess repaired p n st b = XOk st' ->
+  exists c', minv p g U w keysA c' st' /\ incl c' (c ++ n).
+Proof. exact mprocess_inv. Qed.
+Print Assumptions C07_announcement_keeps_invariant_multi.
+
+Theorem C07_node_block_always_accepted_multi : forall p g U, (forall b1 b2, In b1 U -> In b2 U -> b_id b1 = b_id b2 -> b1 = b2) ->
+  forall w keysA c n st b n1 n2, ninv g U n -> minv p g U w keysA c st -> n = n1 ++ b :: n2 -> n1 <> [] ->
+  exists st', xprocess repaired p n st b = XOk st' /\ minv p g U w keysA (n1 ++ [b]) st'.
+Proof. exact mprocess_on_node. Qed.
+Print Assumptions C07_node_block_always_accepted_multi.
+
+(* the invariant at any moment: every other wallet is exactly live (frame); in step and handed over, everybody is *)
+Theorem C07_invariant_frame_multi : forall p g U w keysA c st v, minv p g U w keysA c st -> v <> w ->
+  proj v (credits (x_w st)) = proj v (credits (L p (lookupN keysA) c)) /\
+  xreport st v = spec_report p (lookupN keysA) c v.
+Proof. exact minv_frame. Qed.
+Print Assumptions C07_invariant_frame_multi.
+
+(* ------------------------------------------------------------------ shared transactions *)
+
+(* whenever the database equals the live run: EVERY credit's spent mark is the chain's — spent by the first
+   transaction of the chain that spends its outpoint, whether or not that transaction's record was already in
+   the database for another wallet; unspent iff no transaction of the chain spends it *)
+Theorem C07_shared_tx_spent_marks : forall p st n, equals_live_all p st n -> wf_chain n ->
+  forall cr, In cr (credits (x_w st)) -> c_spent cr = spender_l (ptxs n) (c_tx cr, c_vout cr).
+Proof. exact equals_live_spent_marks. Qed.
+Print Assumptions C07_shared_tx_spent_marks.
+
+(* Wallet 1 (A, script hash 1) is live and ready.  Block 1 pays script hash 2 (wallet B's, not in the database
+   yet) 100; block 2 holds T = transaction 5: spends that coin, pays A 60 and B 40 change; block 3.  A's store:
+   T's record, block 2's record, A's credit (5,0).  B is restored afterwards; one batch. *)
+Definition sb1 := {| b_id := 1; b_prev := 0; b_height := 1; b_txs := [cb 1 [pay 2 100; pay 9 1000]] |}.
+Definition sT : tx := {| t_id := 5; t_cb := false; t_ins := [(1, 0)%N]; t_outs := [pay 1 60; pay 2 40] |}.
+Definition sb2 := {| b_id := 2; b_prev := 1; b_height := 2; b_txs := [cb 2 []; sT] |}.
+Definition sb3 := {| b_id := 3; b_prev := 2; b_height := 3; b_txs := [cb 3 []] |}.
+Definition hist_shared_pre : list xevent :=
+  [XNewWallet 1 11; XNewAddr 1 1; XAttach sb1; XProcess sb1; XAttach sb2; XProcess sb2; XAttach sb3; XProcess sb3].
+Definition shared_chain : list block := [g0; sb1; sb2; sb3].
+
+(* the hypotheses of the *_multi theorems hold of it (U = the chain itself), and at the end: B's coin spent by
+   T is marked spent by T, B's balance is what the chain says (40), T is listed ONCE in block 2's record, A's
+   credit from T is untouched *)
+Example C07_multi_shared_instance :
+  let s_pre := xrun repaired p0 1000 20000 [g0] hist_shared_pre in
+  let st0 := xs_st s_pre in
+  (forall b1 b2, In b1 shared_chain -> In b2 shared_chain -> b_id b1 = b_id b2 -> b1 = b2) /\
+  xs_node s_pre = shared_chain /\ ninv g0 shared_chain shared_chain /\
+  minv p0 g0 shared_chain 2 [(1, 1)%N] shared_chain st0 /\ status_of st0 2 = None /\
+  (forall s, ownW 2 [(1, 1)%N] s = None) /\ (forall s, In s [2%N] -> lookupN [(1, 1)%N] s = None) /\
+  exists st1, import_start st0 2 22 [2%N] = Some st1 /\
+    xwf p0 g0 shared_chain 2 1000 20000 {| xs_node := shared_chain; xs_st := st1; xs_all := []; xs_crashed := false |} [XBatch 2] /\
+    let s := fold_left (xstep repaired p0 1000 20000) [XBatch 2] {| xs_node := shared_chain; xs_st := st1; xs_all := []; xs_crashed := false |} in
+    in_step g0 s /\ status_of (xs_st s) 2 = Some WReady /\
+    map (fun c => (c_tx c, c_vout c, c_amount c, c_spent c)) (proj 2 (credits (x_w (xs_st s)))) =
+      [(1%N, 0%N, 100, Some (5%N, 0%N, 2)); (5%N, 1%N, 40, None)] /\
+    r_total (xreport (xs_st s) 2) = 40 /\ r_total (spec_report p0 (key_owner (xs_st s)) shared_chain 2) = 40 /\
+    x_brecs (xs_st s) = [{| br_h := 2; br_bid := 2; br_txs := [5%N] |}; {| br_h := 1; br_bid := 1; br_txs := [1%N] |}] /\
+    proj 1 (credits (x_w (xs_st s))) = proj 1 (credits (x_w st0)) /\ r_total (xreport (xs_st s) 1) = 60.
+Proof.
+  cbv zeta.
+  assert (Hwf : wf_chain shared_chain) by (apply wf_chain_b_sound; vm_compute; reflexivity).
+  split; [apply ids_b_sound; vm_compute; reflexivity|].
+  split; [vm_compute; reflexivity|].
+  split; [split; [exact Hwf|split; [eexists; reflexivity|apply incl_refl]]|].
+  assert (Hm : minv p0 g0 shared_chain 2 [(1, 1)%N] shared_chain (xs_st (xrun repaired p0 1000 20000 [g0] hist_shared_pre)) /\
+               (forall s, ownW 2 [(1, 1)%N] s = None)).
+  { apply C07_multi_start.
+    - exact Hwf.
+    - eexists; reflexivity.
+    - apply incl_refl.
+    - vm_compute. reflexivity.
+    - vm_compute. reflexivity.
+    - vm_compute. reflexivity.
+    - apply covered_b_sound. vm_compute. reflexivity.
+    - change [(1, 1)%N] with (x_keys (xs_st (xrun repaired p0 1000 20000 [g0] hist_shared_pre))).
+      apply keys_ready_b_sound. vm_compute. reflexivity.
+    - vm_compute. reflexivity.
+    - apply brs_ok_b_sound. vm_compute. reflexivity.
+    - apply brs_le_b_sound. vm_compute. reflexivity. }
+  destruct Hm as [Hm Hnk].
+  split; [exact Hm|]. split; [vm_compute; reflexivity|]. split; [exact Hnk|].
+  split; [intros s [<-|[]]; vm_compute; reflexivity|].
+  eexists. split; [vm_compute; reflexivity|].
+  split; [apply xwf_b_sound; vm_compute; reflexivity|].
+  vm_compute. repeat split; reflexivity.
+Qed.
+
+(* the mutation: the rescan skips a transaction whose record already exists (T, recorded for A).  Same history:
+   B is handed over with its coin of block 1 UNSPENT and without its change: balance 100 where the chain says 40
+   ([import_batch_skip], Ledger/ImportProofs3.v; the model's rescan is [import_batch], of which the theorems
+   above speak) *)
+Theorem C07_import_skips_recorded_tx_refuted :
+  let s_pre := xrun repaired p0 1000 20000 [g0] hist_shared_pre in
+  exists st1, import_start (xs_st s_pre) 2 22 [2%N] = Some st1 /\
+    let st := fst (import_batch_skip repaired p0 1000 (xs_node s_pre) st1 2) in
+    status_of st 2 = Some WReady /\
+    map (fun c => (c_tx c, c_vout c, c_amount c, c_spent c)) (proj 2 (credits (x_w st))) = [(1%N, 0%N, 100, None)] /\
+    r_total (xreport st 2) = 100 /\
+    r_total (spec_report p0 (key_owner st) (xs_node s_pre) 2) = 40 /\
+    (* the model's rescan on the same state: *)
+    r_total (xreport (fst (import_batch repaired p0 1000 (xs_node s_pre) st1 2)) 2) = 40.
+Proof. cbv zeta. eexists. split; [vm_compute; reflexivity|]. vm_compute. repeat split; reflexivity. Qed.
+Print Assumptions C07_import_skips_recorded_tx_refuted.
